@@ -83,6 +83,15 @@ def shapes(ctx):
         ("call:nested", "result(\"r\", h0(h0(x)))"),
         ("call:in_loop", "acc = 0\n    for i in range(3):\n        acc += h0(x + i)\n    result(\"r\", acc)"),
         ("pyconst:loop", "acc = x\n    for i in range(4):\n        acc = acc * 2 + i\n    result(\"r\", acc)"),
+        # Python constants of different types with equal values in one body (True/1, False/0, 1/1.0, 2/2.0)
+        ("pyconst:int_then_bool", "result(\"n\", x + 1)\n    result(\"t\", True)\n    result(\"m\", x * 0)\n    result(\"f\", False)"),
+        ("pyconst:bool_then_int", "result(\"t\", True)\n    result(\"f\", False)\n    result(\"n\", x + 1)\n    result(\"m\", x - 0)"),
+        ("pyconst:bool_ops", "c = b & True\n    result(\"c\", c)\n    d = b | False\n    result(\"d\", d)\n    result(\"r\", x + 1 - 0)"),
+        ("pyconst:int_ops_then_bool", "z = x + 1\n    z = z * 1 + 0\n    c = b | False\n    result(\"c\", c)\n    e = b & True\n    result(\"e\", e)\n    result(\"z\", z)"),
+        ("pyconst:int_float_same", "result(\"a\", x + 1)\n    result(\"c\", f + 1.0)\n    result(\"d\", x * 2)\n    result(\"e\", f * 2.0)"),
+        ("pyconst:float_int_same", "result(\"c\", f + 2.0)\n    result(\"a\", x + 2)\n    result(\"e\", f * 1.0)\n    result(\"d\", x * 1)"),
+        ("pyconst:repeat_same", "result(\"a\", x + 1)\n    result(\"b\", y + 1)\n    result(\"c\", w * 1)\n    result(\"d\", 1 + x)"),
+        ("pyconst:returned_bool_int", "t = (True, 1, False, 0)\n    a1, b1, c1, d1 = t\n    result(\"a\", a1)\n    result(\"b\", b1 + x)\n    result(\"c\", c1)\n    result(\"d\", d1 + x)"),
         ("aug:ops", "z = x\n    z += 3\n    z *= 2\n    z -= y\n    z //= 2\n    result(\"r\", z)"),
         ("return:expr", "return x * 3 - y"),
         ("bitmix", "result(\"r\", (x & 6) | (w << 2) ^ 5)"),
